@@ -670,8 +670,15 @@ def r134(ctx, rep):
     if len(calls) == 1 and len(calls[0].args) == 3:
         a0 = _deref(calls[0].args[0], skd)
         a0t = norm(a0)
-        good = a0t in (sk.posparams[0], 'iter(%s)' % sk.posparams[0]) and norm(calls[0].args[1]) == sk.posparams[1] and \
-            norm(calls[0].args[2]) == 'None'
+        a1t = norm(_deref(calls[0].args[1], skd))
+        a2t = norm(_deref(calls[0].args[2], skd))
+        if sk.posparams and sk.posparams[0] == 'self':
+            # the view does the slicing itself (iterskip inlined into SkipView.__iter__)
+            srcs, ns = ('self.source', 'iter(self.source)'), ('self.n',)
+        else:
+            srcs = (sk.posparams[0], 'iter(%s)' % sk.posparams[0])
+            ns = (sk.posparams[1],) if len(sk.posparams) > 1 else ()
+        good = a0t in srcs and a1t in ns and a2t == 'None'
     if good:
         rep.held('R13.4', sk, 'islice(source, n, None)', '', sk.node)
     else:
